@@ -1,3 +1,5 @@
+import SF.Lemmas.CcLinear
+import SF.Props.C11
 import SF.Props.C04
 import SF.Lemmas.Cum
 import SF.Lemmas.Linear
@@ -196,5 +198,16 @@ theorem alma_linear [Transc α] (N : Nat) (sigma offset a b : α) (xs ys : List 
       simp only [hhd] at e1 e2 e3
       rw [e1, e2, e3]
       field_simp
+
+/-- **CyberCycle obeys superposition at every step** (spec level, any ordered field) … -/
+theorem cyberCycle_linear [Transc α] (N : Nat) (a b : α) (xs ys : List α) (h : xs.length = ys.length) :
+    Spec.cyberCycle N (Linear.lin a b xs ys) = Linear.olin a b (Spec.cyberCycle N xs) (Spec.cyberCycle N ys) :=
+  CcLinear.cyberCycle_linear N a b xs ys h
+
+/-- … and so does the view itself, for every window its constructor accepts (N ≥ 6), through C11 -/
+theorem cyberCycle_view_linear [Transc α] (N : Nat) (hN : 6 ≤ N) (a b : α) (xs ys : List α) (h : xs.length = ys.length) :
+    (ccCoreU (α := α) N).outAfter (Linear.lin a b xs ys)
+      = .ok (Linear.olin a b (Spec.cyberCycle N xs) (Spec.cyberCycle N ys)) := by
+  rw [C11.cyberCycle_eq N hN, CcLinear.cyberCycle_linear N a b xs ys h]
 
 end SF.C10
